@@ -129,6 +129,15 @@ class Ctx:
         r = small(f / l2p)
         if r is not None and abs(f - float(r) * l2p) <= 4 * math.ulp(f):
             return self.ln2pi() * self.const(r)
+        # a + b * ln(2 pi) with half-integer a and small b (e.g. D * (1 + ln 2 pi) in entropy())
+        for a2 in range(-32, 33):
+            if a2 == 0:
+                continue
+            a = a2 / 2.0
+            q = (f - a) / l2p
+            rb = Fraction(q).limit_denominator(4)
+            if rb != 0 and abs(rb.numerator) <= 64 and abs(f - (a + float(rb) * l2p)) <= 4 * math.ulp(f):
+                return self.ln2pi() * self.const(rb) + self.const(Fraction(a2, 2))
         # q * ln 2
         r = small(f / math.log(2.0))
         if r is not None and abs(f - float(r) * math.log(2.0)) <= 4 * math.ulp(f):
